@@ -76,7 +76,7 @@ AllKinds == <<Metric("m"), Re("a", ".*", <<"", "x", "y">>), Neq("b", ""), NRe("c
 \* selfnarrow: the plan minus a second selector of the same series over a narrower time range (same matchers, same
 \* enclosing function and grouping: the two selects must stay two selects)
 \* wo3, by5, topkwo3: grouping lists of three and five labels, given out of order
-Wraps  == {"id", "abs", "sumby", "sumwo", "neg", "paren", "binl", "binr", "topk", "scal", "histq", "ts", "clamp", "selfnarrow", "wo3", "by5", "topkwo3"}
+Wraps  == {"id", "abs", "sumby", "sumwo", "neg", "paren", "binl", "binr", "topk", "scal", "histq", "ts", "clamp", "selfnarrow", "wo3", "by5", "topkwo3", "pos"}
 LeafPlan(l) ==
   CASE l = "m"      -> <<Sel(<<Metric("m")>>)>>
     [] l = "moff"   -> <<SelOff(<<Metric("m")>>, 2)>>
@@ -97,6 +97,7 @@ Wrap(w, p) ==
     [] w = "wo3"   -> Over(p, LAMBDA c : Agg("min", FALSE, <<"z", "b", "c">>, <<c>>))
     [] w = "by5"   -> Over(p, LAMBDA c : Agg("sum", TRUE, <<"z", "a", "q", "b", "c">>, <<c>>))
     [] w = "topkwo3" -> Join(<<Num(1)>>, p, LAMBDA a, b : Agg("bottomk", FALSE, <<"z", "c", "b">>, <<a, b>>))
+    [] w = "pos"   -> Over(p, LAMBDA c : Pos(c))
     [] w = "neg"   -> Over(p, LAMBDA c : NegN(c))
     [] w = "paren" -> Over(p, LAMBDA c : Paren(c))
     [] w = "binl"  -> Join(p, <<Sel(<<Metric("n")>>)>>, LAMBDA a, b : BinM("+", a, b, FALSE, "1:1", TRUE, <<"a">>, <<>>))
